@@ -289,6 +289,7 @@ func run(ck *checks.Check, tier string, seed int64) int {
 		bySig[v.Sig] = append(bySig[v.Sig], v)
 	}
 	exit := 0
+	var unconfirmed, strictFail []string
 	var knownPrinted []string
 	newViol := 0
 	for _, sig := range sigs {
@@ -332,15 +333,26 @@ func run(ck *checks.Check, tier string, seed int64) int {
 					crashed = true // the replay itself crashes the process: reproducible by construction
 					break
 				}
-				if err != nil && strings.Contains(string(out), "SIG="+sig+"\n") {
+				if err != nil && sameFinding(ck, sig, string(out)) {
 					okCount++
 				} else if need == tries {
 					break
 				}
 			}
 			if !crashed && okCount < need {
-				fmt.Printf("HARNESS-ERROR: property=%s recorded case did not reproduce (%d of %d needed re-executions failed with signature %s, file %s): harness nondeterministic; no verdict\n%s\n", ck.ID, okCount, need, sig, path, tail(string(lastOut), 1500))
-				return 2
+				if need == 1 {
+					// order-dependent inside the code under test (Go map iteration): not reproduced in 8 tries; keep it as a note
+					// and let the other violations of this run decide
+					unconfirmed = append(unconfirmed, fmt.Sprintf("%s (%s)", sig, path))
+					fmt.Printf("NOTE: property=%s a violation with signature %s was observed once but did not reproduce in %d re-executions (it depends on Go map iteration order inside the code under test); replay file %s\n", ck.ID, sig, tries, path)
+					continue
+				}
+				// not reproducible from a fresh process.  If another violation of this run IS confirmed, this one may be a
+				// consequence of process-global state the first one corrupted; it is reported as a note.  If nothing is
+				// confirmed the run ends with HARNESS-ERROR (exit 2, no verdict) below.
+				unconfirmed = append(unconfirmed, fmt.Sprintf("%s (%s)", sig, path))
+				strictFail = append(strictFail, fmt.Sprintf("recorded case did not reproduce (%d of %d needed re-executions failed with signature %s, file %s)\n%s", okCount, need, sig, path, tail(string(lastOut), 800)))
+				continue
 			}
 		}
 		fmt.Printf("VIOLATION property=%s replay=%s\n", ck.ID, path)
@@ -349,6 +361,17 @@ func run(ck *checks.Check, tier string, seed int64) int {
 		exit = 1
 	}
 
+	for _, m := range strictFail {
+		if exit == 1 {
+			fmt.Printf("NOTE: property=%s %s\n", ck.ID, firstLines(m, 1))
+		} else {
+			fmt.Printf("HARNESS-ERROR: property=%s %s: harness nondeterministic; no verdict\n", ck.ID, m)
+		}
+	}
+	if exit == 0 && len(unconfirmed) > 0 {
+		fmt.Printf("HARNESS-ERROR: property=%s %d violation(s) were observed but none could be reproduced from its replay file; no verdict\n", ck.ID, len(unconfirmed))
+		return 2
+	}
 	// evidence
 	exhaustive := len(tot.Incomplete) == 0 && allNil(crashes)
 	cov := map[string]interface{}{
@@ -436,6 +459,19 @@ func replay(ck *checks.Check, path string, verbose bool) int {
 		}
 	}
 	return 1
+}
+
+func sameFinding(ck *checks.Check, recorded, out string) bool {
+	for _, l := range strings.Split(out, "\n") {
+		if !strings.HasPrefix(l, "SIG=") {
+			continue
+		}
+		got := strings.TrimPrefix(l, "SIG=")
+		if got == recorded || (ck.SameFinding != nil && ck.SameFinding(recorded, got)) {
+			return true
+		}
+	}
+	return false
 }
 
 func lastLine(b []byte) []byte {
